@@ -35,6 +35,8 @@ def model(c, invs, twins, pairs=False, tag=""):
 
 
 def describe(e):
+    if e.get("ev") == "Hang":
+        return "%s (%s, debug=%s, headers %s)" % (e["what"], e["m"], e["dbg"], json.dumps(e["req"])[:200])
     return "%s %s Origin=%r ACRM=%r ACRH=%r ACRPN=%r debug=%s -> status %s headers %s" % (
         e["m"], "", [o[:120] for o in e["origin"]], [x[:60] for x in e["acrm"]], [x[:80] for x in e["acrh"]],
         e["acrpn"], e["dbg"], e["resp"]["status"], json.dumps(e["raw"])[:400])
@@ -107,7 +109,7 @@ def run_serve(c, prop, shards, what, conform=False):
         if s["rejected"]:
             c.drift.append("%d by-construction-valid configurations rejected" % s["rejected"])
         if k == 0:
-            c.cov["samples"] += s["samples"][:1]
+            c.cov["samples"] += (s.get("samples") or [])[:1]
     c.cov["evaluations"] += tot["served"]
     c.cov["traces_validated_against_impl"] += tot["configs"]
     return tot
